@@ -318,6 +318,34 @@ theorem jinv_apply (g : G) (a : Action) (h : JInv g) (ht : TInv g.core) :
           exact this.1
         rw [this]; exact MemLe.refl _
 
+def Action.isJoinerAct : Action → Bool
+  | .join _ | .ctxExit .. | .cancelJoiner _ => true
+  | _ => false
+
+/-- an action of the environment other than entering / cancelling the join leaves the joiner
+record alone (it may wake it) -/
+theorem jrel_apply (g : G) (a : Action) (ha : a.isJoinerAct = false) : JRel g (g.apply a).1 := by
+  unfold G.apply
+  cases a with
+  | spawn i d ch =>
+    simp only []
+    cases h : g.add i d ch with
+    | none => exact JRel.refl g
+    | some g' => exact jrel_add h
+  | finish i o p => simp only []; split; exact jrel_finishMem g i o; exact JRel.refl g
+  | extCancel i p => simp only []; split; exact jrel_deliverCancel g i; exact JRel.refl g
+  | finCancel i p => simp only []; split; exact jrel_finishMem g i _; exact JRel.refl g
+  | join p => simp [Action.isJoinerAct] at ha
+  | ctxExit r p => simp [Action.isJoinerAct] at ha
+  | cancelJoiner p => simp [Action.isJoinerAct] at ha
+  | nextDone k p =>
+    simp only []
+    split
+    · exact JRel.refl g
+    · split
+      · exact JRel.of_eq rfl rfl
+      · exact JRel.trans (JRel.of_eq (g' := { g with sem := g.sem - 1 }) rfl rfl) (jrel_wake _ _)
+
 theorem jinv_init (p : Policy) : JInv { wait := p } :=
   ⟨by intro j hj; simp at hj, by intro j s hj; simp at hj, by intro j hj; simp at hj⟩
 
